@@ -1,5 +1,5 @@
 CONSTANTS Depth = 3
- Leaves = {"error", "clash.C", "fixt.Gen[fixt2.B]", "subjson.J", "stdjson.RawMessage", "fixt.Gen[dotted.D]"}
+ Leaves = {"error", "clash.C", "fixt.Gen[fixt2.B]", "subjson.J", "stdjson.RawMessage", "fixt.Gen[dotted.D]", "fixt.PA", "fixt.Gen[stdtime.Duration]"}
  Ctors = {"ptr", "mapS", "struct2"}
  Targets = {"clash-pre"}
  Views = {"types", "reflect"}
